@@ -121,6 +121,17 @@ func runC19(c *an.Ctx) {
 		c.Check(okI && okD, "R1", "status precedence: interruption, then would-be interruption", pl.Pos(), "guards in that order", "the relevant-status source does not prefer the real interruption over the DetectionOnly one (or dereferences without its guard)")
 	}
 
+	// the audit engine of a transaction can be switched by ctl in any phase, the logging phase included (the mode is
+	// read after the phase-5 rules ran): the ctl stores the parsed mode under no condition but "it parsed"
+	for _, fs := range c.P.StoresToField(pkgWAF, "Transaction", "AuditEngine") {
+		if an.RelName(fs.Fn) != "internal/actions.(*ctlFn).Evaluate" {
+			continue
+		}
+		fg := foreignGuards(an.FactsAt(fs.Store), "a.action", "ParseAuditEngineStatus", ".action")
+		c.Check(len(fg) == 0, "R1", "ctl:auditEngine takes effect whenever it parses", fs.Store.Pos(), "no other condition on the store",
+			"ctl:auditEngine is additionally conditioned on "+strings.Join(fg, ", ")+": in those states (e.g. once the logging phase has started) the switch is silently ignored, so a record is written although a phase-5 rule turned auditing off, or is missing although one turned it on")
+	}
+
 	// ---- R2
 	nCb := 0
 	for _, fn := range c.P.ModFuncs {
